@@ -175,6 +175,10 @@ impl Property for StoreProp {
                         ops.push(Op::S(SOp::Import { n, write: rng.chance(3, 4) }));
                     }
                 }
+                if rng.chance(1, 4) {
+                    // the protected content hashes and the policies are then asked of the store actor
+                    ops.push(Op::S(SOp::ViaActor));
+                }
                 for _ in 0..rng.range(4, 16 * scale) {
                     match rng.below(20) {
                         0..=9 => {
